@@ -62,8 +62,16 @@ def check_titration(case, grid):
         except Exception:  # noqa
             pass
     prev = None
-    for pH in grid:
+    import numpy as _np
+    for gi, pH in enumerate(grid):
         inside = 0.0 <= pH <= 14.0
+        # the same value in other numeric types: Python int for whole numbers, numpy float64
+        if float(pH).is_integer() and 0 <= pH <= 14 and gi % 2 == 1:
+            pH = (_np.int8, _np.int16, _np.int32, _np.uint8, _np.int64, _np.uint16)[(gi // 2 + len(seq)) % 6](int(pH))
+        elif float(pH).is_integer() and gi % 2 == 0:
+            pH = int(pH)
+        elif gi % 3 == 0:
+            pH = _np.float64(pH)
         try:
             ncpr = o.get_NCPR(pH)
             fcr = o.get_FCR(pH)
